@@ -91,6 +91,12 @@ def check(ctx):
                 if aliases & wl:
                     r1.ok("%s: %s over %s seeds a worklist (popped until empty; results only enter maps/sets)" % (short_path(f.id), s.call.name, s.source))
                     continue
+                # ... or it is a batch that is only ever appended to the worklist (`let found: Vec<_> = set.into_iter().filter(..).collect(); pending.extend(found)`)
+                uses_ = [c2 for c2 in f.calls if c2.bb in f.reach_blocks and c2 is not s.call and any(_base(f, a_) in aliases for a_ in c2.args)]
+                if uses_ and all(c2.name in ("extend", "append", "extend_from_slice", "into_iter", "len", "is_empty") and (c2.name in ("into_iter", "len", "is_empty") or _base(f, c2.args[0]) in wl) for c2 in uses_) \
+                        and any(c2.name in ("extend", "append", "extend_from_slice") for c2 in uses_):
+                    r1.ok("%s: %s over %s builds a batch that is only appended to the function's own worklist" % (short_path(f.id), s.call.name, s.source))
+                    continue
             if s.call.name == "extend" and s.call.args and _base(f, s.call.args[0]) in wl:
                 # `worklist.extend(set.iter().filter(..).cloned())`: the same feeding of the function's own worklist as a push loop
                 r1.ok("%s: %s over %s extends the function's own worklist (popped until empty; results only enter maps/sets)" % (short_path(f.id), s.call.name, s.source))
